@@ -18,6 +18,7 @@ class SymAPI(object):
         self.events = []       # op-kind / oracle-branch labels reached (vacuity guard)
         from symx.shims import fs_shim
         fs_shim.FS.reset()     # no state may leak from one path to the next
+        core.HASH_BY_CONTENT = False
 
     # -- inputs -----------------------------------------------------------------
     def _name(self, name):
@@ -27,6 +28,8 @@ class SymAPI(object):
 
     def bytes(self, name, n, exclude=(0x7c,), domain=None):
         """n fresh symbolic bytes (each != every value in `exclude`, or inside `domain`)."""
+        if core.HASH_BY_CONTENT:
+            raise core.EngineError("symbolic bytes declared in concrete mode")
         self._name(name)
         items = tuple(self.p.fresh_byte("%s.%d" % (name, i), exclude=exclude, domain=domain) for i in range(n))
         v = SymBytes(items)
@@ -35,6 +38,12 @@ class SymAPI(object):
 
     def const(self, b):
         return SymBytes(tuple(b))
+
+    def concrete_mode(self):
+        """every byte string of this path is concrete: proxies hash like the bytes they stand for"""
+        if any(k == "bytes" for k, _n, _v in self.p.inputs):
+            raise core.EngineError("concrete_mode() after symbolic bytes were declared")
+        core.HASH_BY_CONTENT = True
 
     def choose(self, name, n):
         self._name(name)
